@@ -36,7 +36,7 @@ fn new_domain(name: &str, params: &[&str]) -> Option<Box<dyn Domain>> {
 }
 
 fn main() {
-    std::panic::set_hook(Box::new(|_| {}));
+    if std::env::var("DCH_VERBOSE").is_err() { std::panic::set_hook(Box::new(|_| {})); }
     let stdin = io::stdin();
     let stdout = io::stdout();
     let mut out = io::BufWriter::new(stdout.lock());
